@@ -4,7 +4,7 @@
 From Coq Require Import Ascii String List Bool Arith ZArith NArith Lia.
 From PTBase Require Import Exn PyStr PyNum PyVal.
 From PTModel Require Import Fortran.
-From P Require Import Model Layout Cells Tokens Table.
+From P Require Import Model Layout Cells Tokens Table Start.
 Import ListNotations.
 Open Scope char_scope.
 
@@ -137,6 +137,22 @@ Proof. vm_compute. reflexivity. Qed.
 Example tokens_eco2m :
   row_tokens true (s2l " A1001     1 2 0.221166E+08  45.0000 0.000000E+00") = map s2l ["2"%string; "0.221166E+08"%string; "45.0000"%string; "0.000000E+00"%string].
 Proof. vm_compute. reflexivity. Qed.
+
+(** the two start theorems on the shipped first rows they are about *)
+Example start_exponential_example : start_of_values_nat row15_shipped = Some 12.
+Proof.
+  change row15_shipped with (s2l " A1  1     " ++ "1" :: "0" :: "." :: s2l "597704" ++ "E" :: "+" ::
+    (s2l "070.275300E+030.208697E+00-.168194E-27-.149887E-35-.529036E-34-.950329E-36-.000000E+000.307002E+020.758766E+03" ++ nl)).
+  rewrite start_exponential; [reflexivity| | | | | | |]; try discriminate; try (repeat constructor; discriminate).
+Qed.
+Example start_fixed_point_example : start_of_values_nat rowneg_shipped = Some 12.
+Proof.
+  change rowneg_shipped with (s2l " at  0     " ++ "1" :: spaces 3 ++ s2l "101300" ++ "." :: s2l "00   2" ++ "5" ::
+    ("." :: s2l "000000    1.000000    0.000000 0.99000E+00 0.16023E-04 0.31660E+04 0.49407-323   1.17627 -12.00000" ++ nl)).
+  rewrite start_fixed_point; [reflexivity| | | | | | | | | |]; try discriminate; try lia; try (repeat constructor; discriminate).
+  - repeat constructor; intros [M|[M|M]]; discriminate M.
+  - right. eexists. reflexivity.
+Qed.
 
 (** a connection table: hypotheses of the three addressing theorems *)
 Definition ex_table : table nat :=
